@@ -23,6 +23,7 @@ structure St where
   cfg : Cfg := {}
   node : Node := { led := {}, height := 0 }
   started : Bool := false
+  hist : List (Nat × Node) := []      -- the node after each height (for `reorg`: consensus replaces an executed block)
 
 def initNode : Node :=
   let store : KV Key Val := worldServices.foldl (fun m p =>
@@ -157,6 +158,37 @@ def showBlock (o : BlockOut) (outside : List Bool := []) : String :=
 def showCounter (m : KV SvcId Nat) : String :=
   "{" ++ joinC (sortStrings (m.map fun p => s!"{SvcId.str p.1}={p.2}")) ++ "}"
 
+def doBlock (s : St) (rest : List String) : St × String :=
+  -- `sig:<kind> <tx>`: the transaction is not local, its signature is verified; every kind but `ok` is an invalid signature
+  let parseSigned (t : List String) : Option (Tx × Bool) :=
+    match t with
+    | k :: inner =>
+      if k.startsWith "hdr:" then
+        -- a transaction without (or with a zero) receiver: outside the model, a failed receipt the signer pays for
+        (parseTx inner).map (fun x => (match x with
+          | .xfer f _ _ => .bvm f "?hdr" "?" []
+          | .ibtp s _ _ => .bvm s "?hdr" "?" []
+          | .bvm s _ _ _ => .bvm s "?hdr" "?" [], true))
+      else if k == "sig:nofrom" then (parseTx inner).map (fun x => (noSender x, false))
+      else if k.startsWith "sig:" then (parseTx inner).map (fun x => (x, k == "sig:ok")) else (parseTx t).map (fun x => (x, true))
+    | [] => none
+  let txs := (splitTxs rest).map parseSigned
+  if txs.all Option.isSome then
+    let (n', out) := execBlock s.cfg s.node (txs.filterMap id)
+    let outside := (txs.filterMap id).map fun p => match p.1 with
+      | .bvm _ c _ _ => c.startsWith "?"
+      | _ => false
+    -- does the hypothesis of C04_block_final_stays hold of this block?  (no record on the timeout list of this height is
+    -- final when the timeout step runs) — evaluated on the model's own state, reported as a model-only annotation
+    let h := s.node.height + 1
+    let a := applyTxs s.cfg s.node.cache h s.node.led (txs.filterMap id)
+    let l2 := setTimeoutList s.cfg a.led h ((txs.filterMap id).map (·.1)) a.rcpts
+    let listedFinal := (getTimeoutList l2 h).any fun id => match id with
+      | .single t => (match l2.getS (.txRec t) with | some (.trec r) => r.status.isFinal | _ => false)
+      | .global _ => false
+    ({ s with node := n', hist := s.hist ++ [(n'.height, n')] }, showBlock out outside ++ " ##m listedfinal=" ++ (if listedFinal then "1" else "0"))
+  else (s, "bad-op unparsed")
+
 def step (s : St) (ws : List String) : St × String :=
   if !s.started && ws.head? != some "world" && ws.head? != some "reset" then (s, "bad-op") else
   match ws with
@@ -165,37 +197,20 @@ def step (s : St) (ws : List String) : St × String :=
     let price := ((parseKV opts "price").bind String.toNat?).getD 1
     let audit := parseKV opts "audit" == some "1"
     let cfg : Cfg := { price := price, audit := audit }
-    ({ cfg := cfg, node := initNode, started := true }, s!"ok h={initNode.height}")
-  | "block" :: rest =>
-    -- `sig:<kind> <tx>`: the transaction is not local, its signature is verified; every kind but `ok` is an invalid signature
-    let parseSigned (t : List String) : Option (Tx × Bool) :=
-      match t with
-      | k :: inner =>
-        if k.startsWith "hdr:" then
-          -- a transaction without (or with a zero) receiver: outside the model, a failed receipt the signer pays for
-          (parseTx inner).map (fun x => (match x with
-            | .xfer f _ _ => .bvm f "?hdr" "?" []
-            | .ibtp s _ _ => .bvm s "?hdr" "?" []
-            | .bvm s _ _ _ => .bvm s "?hdr" "?" [], true))
-        else if k == "sig:nofrom" then (parseTx inner).map (fun x => (noSender x, false))
-        else if k.startsWith "sig:" then (parseTx inner).map (fun x => (x, k == "sig:ok")) else (parseTx t).map (fun x => (x, true))
-      | [] => none
-    let txs := (splitTxs rest).map parseSigned
-    if txs.all Option.isSome then
-      let (n', out) := execBlock s.cfg s.node (txs.filterMap id)
-      let outside := (txs.filterMap id).map fun p => match p.1 with
-        | .bvm _ c _ _ => c.startsWith "?"
-        | _ => false
-      -- does the hypothesis of C04_block_final_stays hold of this block?  (no record on the timeout list of this height is
-      -- final when the timeout step runs) — evaluated on the model's own state, reported as a model-only annotation
-      let h := s.node.height + 1
-      let a := applyTxs s.cfg s.node.cache h s.node.led (txs.filterMap id)
-      let l2 := setTimeoutList s.cfg a.led h ((txs.filterMap id).map (·.1)) a.rcpts
-      let listedFinal := (getTimeoutList l2 h).any fun id => match id with
-        | .single t => (match l2.getS (.txRec t) with | some (.trec r) => r.status.isFinal | _ => false)
-        | .global _ => false
-      ({ s with node := n' }, showBlock out outside ++ " ##m listedfinal=" ++ (if listedFinal then "1" else "0"))
-    else (s, "bad-op unparsed")
+    ({ cfg := cfg, node := initNode, started := true, hist := [(initNode.height, initNode)] }, s!"ok h={initNode.height}")
+  | "block" :: rest => doBlock s rest
+  | "reorg" :: hh :: rest =>
+    -- the executor rolls the ledger back to height-1 and executes the new block in place of the old one
+    match hh.toNat? with
+    | none => (s, "bad-op")
+    | some h =>
+      if h < 2 || h > s.node.height then (s, "bad-op") else
+      match s.hist.find? (fun p => p.1 == h - 1) with
+      | none => (s, "bad-op")
+      | some (_, base) =>
+        -- the executor object lives on: its service cache is the running node's one
+        let s1 := { s with node := { base with cache := s.node.cache }, hist := s.hist.filter (fun p => p.1 < h) }
+        doBlock s1 rest
   | ["q", "status", id] =>
     match parseTxId id with
     | some t => (s, match tmGetStatus s.node.led t with | some st => toString st.toNat | none => "none")
